@@ -313,6 +313,38 @@ fn seeded_spill_ops(seed: u64, n: usize, icomp: Compression) -> String {
     ops.join(";")
 }
 
+/// very regular archives: consecutive ids, distinct contents of one length (directories that compress extremely well)
+fn regular_ops(n: usize, icomp: Compression) -> String {
+    let mut ops = vec![format!("c:{}", comp_tok(icomp))];
+    for i in 0..n {
+        ops.push(format!("a:{:x}:{:08x}", 100 + i, i as u32));
+    }
+    ops.join(";")
+}
+
+/// an archive of another writer (unordered data, prefix back-references, separately stored duplicates, nested leaves),
+/// opened and written again: the output must be valid for the strict reader and address exactly the same bytes
+fn chk_valid_foreign(mode: &str, bytes: &[u8]) -> Result<(), String> {
+    let src = spec::parse(bytes, false).map_err(|e| format!("harness: foreign archive invalid: {e}"))?;
+    let mut want: BTreeMap<u64, Vec<u8>> = BTreeMap::new();
+    for (id, ol) in spec::all_tiles(&src, 2_000_000)? {
+        want.insert(id, spec::tile_bytes(bytes, &src.header, ol)?.to_vec());
+    }
+    let st = reopen(mode == "async", bytes.to_vec(), FULL)?;
+    let out = write_bytes(st)?;
+    let v = spec::parse(&out, true).map_err(|e| format!("the rewritten archive is not a valid PMTiles v3 file: {e}"))?;
+    let all = spec::all_tiles(&v, 2_000_000)?;
+    if all.len() != want.len() {
+        return Err(format!("the rewritten archive addresses {} tiles, the source {}", all.len(), want.len()));
+    }
+    for (id, ol) in all {
+        let got = spec::tile_bytes(&out, &v.header, ol)?;
+        if want.get(&id).map(|c| &c[..]) != Some(got) {
+            return Err(format!("tile {id} changed its content in the rewritten archive ({} bytes instead of {:?})", got.len(), want.get(&id).map(|c| c.len())));
+        }
+    }
+    Ok(())
+}
 fn chk_valid(wmode: &str, ops: &str) -> Result<(), String> {
     let (st, abs) = build(wmode, ops)?;
     let bytes = write_bytes(st)?;
@@ -425,7 +457,14 @@ fn chk_dedup(mode: &str, ops: &str) -> Result<(), String> {
                 }
                 st = reopen(*r == "a", bytes, range)?;
             }
-            ["g", _] | ["l"] | ["n"] | ["p"] | ["q"] => {}
+            ["g", id] => {
+                // a lookup must not change what is stored (caches, promotions)
+                let id = unhex_u64(id);
+                if get(&mut st, id)?.as_ref() != abs.tiles.get(&id) {
+                    return Err(format!("lookup of {id} returns other bytes than were added"));
+                }
+            }
+            ["l"] | ["n"] | ["p"] | ["q"] => {}
             _ => {
                 apply_ops(&mut st, &[o])?;
                 abs.apply(o);
@@ -513,6 +552,23 @@ fn chk_hist_map(mode: &str, ops: &str) -> Result<(), String> {
             }
             ["g", id] => {
                 probe.insert(unhex_u64(id));
+            }
+            ["f", id, nth] => {
+                // the nth next read call of a fragmenting reader fails once (a transient I/O error): the lookup may fail,
+                // but the archive must keep behaving like the map afterwards ("G" lookups follow in the given order)
+                crate::streams::frag_fail_next(unhex_u64(nth) as u32 + 1);
+                let _ = get_by_id(&mut st, unhex_u64(id));
+                crate::streams::frag_fail_next(0);
+                continue;
+            }
+            ["G", id] => {
+                // one lookup, right now, and nothing else
+                let id = unhex_u64(id);
+                let got = get(&mut st, id)?;
+                if got.as_ref() != abs.tiles.get(&id) {
+                    return Err(format!("after op #{n}: lookup of {id} returns {:?}, the map says {:?}", got.map(|b| hex_bytes(&b)), abs.tiles.get(&id).map(|b| hex_bytes(b))));
+                }
+                continue;
             }
             ["l"] | ["n"] | ["p"] | ["q"] => {}
             _ => {
@@ -1021,6 +1077,23 @@ pub fn gen(prop: &str, rng: &mut Rng, quick: bool, st: &mut Stats) -> Option<Vec
                 }
                 st.bump("archives_forcing_leaf_directories");
             }
+            // very regular archives of sizes where a directory is 64 KiB .. 80 KiB uncompressed (17 000 tiles) and where a
+            // codec shrinks it by more than a thousand to one (60 000 tiles)
+            for (i, (n, comp)) in [(17_000usize, Compression::None), (60_000, Compression::ZStd), (60_000, Compression::Brotli), (40_000, Compression::GZip)].iter().enumerate() {
+                let (w, r) = fam(i);
+                if prop == "C01" {
+                    c.push(format!("chk_roundtrip_regular {w} {r} {n:x} {}", comp_tok(*comp)));
+                } else {
+                    c.push(format!("chk_valid_regular {w} {n:x} {}", comp_tok(*comp)));
+                }
+                st.bump("archives_very_regular");
+            }
+            // so many sparse tiles that even the first root of leaf pointers exceeds the budget and the leaf size has to be
+            // doubled inside a whole-archive write (5.2 million tiles, ids 2^39 apart; about 10 s and 1 GB)
+            if prop == "C02" {
+                c.push("chk_valid_sparse sync 4f5880 27".to_string());
+                st.bump("archives_with_doubled_leaf_size");
+            }
             // tile counts that put an uncompressed root directory just below, inside and above (16257, 16384]
             for (i, n) in [4060usize, 4063, 4064, 4065, 4080, 4095, 4096, 4097].iter().enumerate() {
                 let (w, r) = fam(i);
@@ -1078,6 +1151,18 @@ pub fn gen(prop: &str, rng: &mut Rng, quick: bool, st: &mut Stats) -> Option<Vec
                     c.push(format!("chk_valid {w} {}", ops.join(";")));
                 }
                 st.bump("archives_edited_after_reopen");
+            }
+            // archives of another writer, opened and written again (C02: the output is judged; C01: read back through the API)
+            if prop == "C02" {
+                for k in 0..(if quick { 12 } else { 100 }) {
+                    let mut o = foreign_opts(rng, k + 3, true);
+                    o.n = o.n.min(150);
+                    o.unordered = k % 4 != 3;
+                    o.empty_meta = false;
+                    let f = gen_foreign(rng, &o, st);
+                    c.push(format!("chk_valid_foreign {} {}", fam(k).0, hex_bytes(&f.bytes)));
+                    st.bump("foreign_archives_rewritten");
+                }
             }
             // metadata far larger than any internal buffer (sync and async, every codec)
             for (k, size) in [70_000usize, 150_000, 400_000].iter().enumerate() {
@@ -1227,6 +1312,26 @@ pub fn gen(prop: &str, rng: &mut Rng, quick: bool, st: &mut Stats) -> Option<Vec
                     let _ = k;
                     st.bump("mixed_backed_and_memory_duplicates");
                 }
+                // lookups between the edits (read caches must not change what is stored), and for C04 lookups during
+                // which the reader fails once
+                for (k, tail) in [
+                    format!("g:5;g:9;a:5:{cb};g:9;r:9;g:c"), format!("g:9;g:5;r:5;g:9;g:c"), format!("g:c;g:9;g:5;a:9:{cb};a:c:{cb};g:5"),
+                    format!("g:5;a:6:{ca};g:6;g:5;r:5;g:6;r:9;r:c;g:6"),
+                ].iter().enumerate() {
+                    let base = format!("a:5:{ca};a:9:{ca};a:a:{cb};a:c:{ca}");
+                    if prop == "C04" {
+                        c.push(format!("chk_hist_map {mode} {base};s:{m}:{m};{tail};s:{m}:{m}"));
+                        // three contents stored one after the other (ids 5, 6, 7): look one up, fail while fetching the third,
+                        // then look up the one stored right behind the first; and the other orders
+                        let base3 = format!("a:5:{ca};a:6:{cb};a:7:{};a:8:{ca}", "2122232425");
+                        for (x, z, y) in [(5, 7, 6), (6, 5, 7), (5, 6, 7), (7, 5, 6), (8, 7, 6)] {
+                            c.push(format!("chk_hist_map {mode} {base3};s:{m}:{m};G:{x};f:{z}:{:x};G:{y};G:{x};G:{z};l;n;s:{m}:{m}", k % 2));
+                        }
+                    } else {
+                        c.push(format!("chk_dedup {mode} {base};s:{m}:{m};{tail}"));
+                    }
+                    st.bump("lookups_between_edits");
+                }
                 for (dist, run) in [(1u64 << 32, 3u64), (1 << 32, 1), (2 << 32, 2), ((1 << 32) - 1, 3), ((1 << 32) + 1, 3)] {
                     let mut ops: Vec<String> = (0..run).map(|i| format!("a:{:x}:{ca}", 10 + i)).collect();
                     ops.push(format!("a:{:x}:{ca}", 10 + dist + run));
@@ -1238,6 +1343,16 @@ pub fn gen(prop: &str, rng: &mut Rng, quick: bool, st: &mut Stats) -> Option<Vec
                         c.push(format!("chk_dedup {mode} {ops}"));
                     }
                     st.bump("equal_contents_2pow32_apart");
+                }
+            }
+            // one content larger than 1 MiB held by a reader-backed and by an in-memory tile
+            if prop == "C10" {
+                for (k, n) in [1_048_576usize, 1_048_577].iter().enumerate() {
+                    let mode = if k % 2 == 0 { "sync" } else { "async" };
+                    let m = &mode[..1];
+                    let big = hex_bytes(&rng.bytes(*n));
+                    c.push(format!("chk_dedup {mode} c:none;a:5:{big};a:7:0102;s:{m}:{m};a:9:{big}"));
+                    st.bump("contents_over_1mib_backed_and_in_memory");
                 }
             }
             // histories large enough to need leaf directories, with entry counts that do not divide evenly
@@ -1530,6 +1645,49 @@ pub fn run_chk(toks: &[&str]) -> Option<String> {
         ["chk_foreign_rewrite", mode, b] => {
             let b = unhex_bytes(b);
             guard_chk(|| chk_foreign_rewrite(mode, &b))
+        }
+        ["chk_roundtrip_regular", w, r, n, comp] => {
+            let ops = regular_ops(unhex_u64(n) as usize, parse_comp(comp));
+            guard_chk(|| chk_roundtrip(w, r, &ops))
+        }
+        ["chk_valid_sparse", w, n, gapbits] => {
+            // n tiles whose ids are 2^gapbits apart (wide leaf pointers): built directly, the list is too long for a case line
+            let (n, g) = (unhex_u64(n), unhex_u64(gapbits));
+            guard_chk(|| {
+                let mut st = fresh(*w == "async");
+                match &mut st {
+                    St::S(p) => p.internal_compression = Compression::None,
+                    St::A(p) => p.internal_compression = Compression::None,
+                }
+                for i in 0..n {
+                    let c = vec![(i % 251) as u8 + 1, (i / 251 % 251) as u8];
+                    let r = match &mut st {
+                        St::S(p) => p.add_tile(i << g, c),
+                        St::A(p) => p.add_tile(i << g, c),
+                    };
+                    r.map_err(|e| format!("add_tile: {e}"))?;
+                }
+                let b = write_bytes(st)?;
+                let v = spec::parse(&b, true).map_err(|e| format!("the written archive is not a valid PMTiles v3 file: {e}"))?;
+                let addressed: u64 = v.tile_entries.iter().map(|e| u64::from(e.run)).sum();
+                if addressed != n {
+                    return Err(format!("the directories address {addressed} tiles, {n} were added"));
+                }
+                for i in [0, 1, n / 2, n - 1] {
+                    if spec::lookup(&b, &v.header, i << g)?.is_none() {
+                        return Err(format!("tile {} is not found by the specification's lookup", i << g));
+                    }
+                }
+                Ok(())
+            })
+        }
+        ["chk_valid_regular", w, n, comp] => {
+            let ops = regular_ops(unhex_u64(n) as usize, parse_comp(comp));
+            guard_chk(|| chk_valid(w, &ops))
+        }
+        ["chk_valid_foreign", mode, b] => {
+            let b = unhex_bytes(b);
+            guard_chk(|| chk_valid_foreign(mode, &b))
         }
         ["chk_valid", w, ops] => guard_chk(|| chk_valid(w, ops)),
         ["chk_valid_seeded", w, seed, n, big] => {
